@@ -193,7 +193,7 @@ PROPS = {
                           'stats_at / is_free probes; validate() must not panic while no tree is offline. Concurrent: the same at the quiescent '
                           'end of every explored schedule. ' + T_RULE) + E_RULE,
         'partial': ('exact views (stats, stats_at huge/tree), the per-tree identity fast + hidden = exact, the tree_stats program (no panic, read-only, total = tree counters + reservations) '
-                    'validate() and lower counters at the quiescent end of every interleaving proved; stats_at(0)/is_free and the tree counters at concurrent ends are carried by the correspondence'),
+                    'validate(), stats_at(frame, 0), is_free (all orders) and lower counters at the quiescent end of every interleaving proved; the tree counters at concurrent ends are carried by the correspondence'),
         'assumptions': [],
     },
     'C05': {
@@ -231,7 +231,7 @@ PROPS = {
                  'thorough': [seq('mixed', 800, 300), seq('malformed', 200, 300), seq('change', 200, 300), seq('drain', 200, 300), seq('init', 300, 60), seq('zone', 100, 300)]},
         'rule': S_RULE + ' Oracle: no public call (new, get, put, drain, change_tree, stats, tree_stats, stats_at, is_free, validate while online) panics; every call runs under catch_unwind.',
         'partial': ('proved: construction (free-all/allocate-all, every frame count incl. 0; recovery from every weak-invariant state: C05) and every sequential history of '
-                    'get/put/drain/change_tree/stats/tree_stats/validate never panic; carried by the correspondence: stats_at(0)/is_free'),
+                    'get/put/drain/change_tree/stats/tree_stats/validate/stats_at/is_free never panic, for configurations satisfying CfgOk (all of the repository); configurations outside CfgOk are only explored'),
         'assumptions': ['harness built with overflow-checks on, debug-assertions off (assertions of the release configuration)'],
     },
     'C10': {
@@ -249,7 +249,7 @@ PROPS = {
     'C11': {
         'oracles': ['C11'], 'bv_decide': True,
         'geoms': {'quick': ['default', 'th1'], 'thorough': ALLG},
-        'runs': {'quick': [unit('ent', 2000), seq('single', 20, 150)], 'thorough': [unit('ent', 200000), seq('single', 400, 300), seq('mixed', 200, 300)]},
+        'runs': {'quick': [unit('ent', 2000), seq('single', 20, 150)], 'thorough': [unit('ent', 200000), seq('single', 150, 300), seq('mixed', 200, 300)]},
         'rule': S_RULE + (' Single-slot flavor: one class with one slot, base-order gets through the slot, frees with and without the slot, exhaust '
                           'phases; oracle: with one slot a get fails only when the shadow state has no free frame (frees counted globally are '
                           'synchronised back into the slot).') + E_RULE,
